@@ -795,3 +795,41 @@ def replay(ctx: Ctx):
         rep = describe(case, trace, final, info)
         rep["failure"] = {"kind": kind, "detail": problems[0][1] if problems else {}}
         ctx.violation(f"replay: {kind}", rep, features_of(case, kind))
+
+
+# --------------------------------------------------------------------------------------------
+# C13 witness (C13_oto_injective_relabel_ties_refuted): with tied probabilities the tie-break by
+# node id makes the single-best-link PARTITION depend on the labels.  The relabelled copy renames
+# datasets and unique ids so that the order of the composite ids is exactly reversed (phi x = 4-x).
+RELABEL_WITNESS = {
+    "orig": {"names": ["b", "c", "ds_x"], "dfs": ["c"],
+             "nodes": [("b", 1), ("b", 30), ("c", 11), ("c", 2), ("ds_x", 101)]},     # ranks 0..4
+    "relabelled": {"names": ["z", "y", "a"], "dfs": ["y"],
+                   "nodes": [("z", 2), ("z", 1), ("y", 2), ("y", 1), ("a", 101)]},      # ranks 4,3,2,1,0
+    "edges": [(2, 4, 800), (3, 4, 800), (1, 4, 800), (3, 0, 845)], "thr": 0,
+}
+
+
+def relabel_ties_witness(backend):
+    """Runs the REAL cluster_using_single_best_links on the witness and on its relabelled copy.
+    Returns (reproduced, details): reproduced iff the two partitions (as sets of record indexes)
+    differ.  The model predicts {0,3},{1,2,4} for the original and {0,1,3,4},{2} for the copy."""
+    parts = {}
+    for which in ("orig", "relabelled"):
+        w = RELABEL_WITNESS[which]
+        case = {"backend": backend, "names": w["names"], "nodes": w["nodes"], "edges": list(RELABEL_WITNESS["edges"]),
+                "thr": RELABEL_WITNESS["thr"], "thr_weight": None, "dfs": w["dfs"], "form": "single", "ties_wanted": True}
+        keys = sorted(composite(ds, u) for ds, u in w["nodes"])
+        assert [keys.index(composite(ds, u)) for ds, u in w["nodes"]] == ([0, 1, 2, 3, 4] if which == "orig" else [4, 3, 2, 1, 0])
+        trace, final = run_impl(case)
+        idx = {tuple(n): i for i, n in enumerate(w["nodes"])}
+        clusters = {}
+        for c, ds, u in final:
+            clusters.setdefault(c, set()).add(idx[(ds, u)])
+        parts[which] = sorted(sorted(m) for m in clusters.values())
+    reproduced = parts["orig"] != parts["relabelled"]
+    return reproduced, {"backend": backend, "partition_original": parts["orig"], "partition_relabelled": parts["relabelled"],
+                        "model_predicts": {"original": [[0, 3], [1, 2, 4]], "relabelled": [[0, 1, 3, 4], [2]]},
+                        "witness": {k: (v if k in ("edges", "thr") else {**v, "nodes": [list(n) for n in v["nodes"]]})
+                                    for k, v in RELABEL_WITNESS.items()},
+                        "note": "record indexes refer to witness.*.nodes (same position = same record); probabilities are k/1024"}
